@@ -13,10 +13,10 @@ Definition reads_back (cf : cfg) (sty : style) (l : lef_lib) : bool :=
   match parse cf (render sty l) with Ok l' => lef_eq l l' | _ => false end.
 
 (** one defect at a time *)
-Definition cfg_only_charpos : cfg := mkcfg true false false false false false false.
-Definition cfg_only_drop_props : cfg := mkcfg false true false false false false false.
-Definition cfg_only_points_to_semi : cfg := mkcfg false false true false false false false.
-Definition cfg_only_dbu_mantissa : cfg := mkcfg false false false true false false false.
+Definition cfg_only_charpos : cfg := mkcfg true false false false false false false false.
+Definition cfg_only_drop_props : cfg := mkcfg false true false false false false false false.
+Definition cfg_only_points_to_semi : cfg := mkcfg false false true false false false false false.
+Definition cfg_only_dbu_mantissa : cfg := mkcfg false false false true false false false false.
 
 Definition LefRt_sty_plain : style := mkstyle [] [[SWs 32]] [SWs 10] None [] [] [] false true.
 (** a comment with a two-byte character between the tokens *)
